@@ -5,6 +5,7 @@ R-C05.2  who may introduce a constant type: Any / Callable / Type / Iterator / s
          enumerated cells of the inference tables, under their guard
 R-C05.3  every leaf of a merged type is witnessed by an input (no invented alternative)
 R-C05.4  required/optional classification of merged TypedDict keys (exhaustive over small shapes)
+R-C05.6  the tracer infers each recorded type from the event's own value (a remembered type is not witnessed by it)
 """
 from __future__ import annotations
 
@@ -194,3 +195,7 @@ def run(ctx: Ctx, repo: Repo, tier: str) -> None:
     rule_dict_type(ctx, repo)
     rule_shrink(ctx, repo)
     rule_merge(ctx, repo)
+    from .memo_rules import tracer_no_memory
+    tracer_no_memory(ctx, repo, "R-C05.6")
+    from .memo_rules import infer_no_memory
+    infer_no_memory(ctx, repo, "R-C05.7")
